@@ -304,7 +304,8 @@ Proof.
 Qed.
 Lemma upd_app_inj (l : list actor) a y y' news n : a < length l -> upd l a y ++ news = upd l a y' ++ [n] -> news = [n] /\ y = y'.
 Proof.
-  intros Hl E. destruct (app_eq_len _ _ _ _ ltac:(rewrite !upd_length; reflexivity) E) as [E1 E2]. split; [exact E2|].
+  intros Hl E. assert (Hlen : length (upd l a y) = length (upd l a y')) by (rewrite !upd_length; reflexivity).
+  destruct (app_eq_len _ _ _ _ Hlen E) as [E1 E2]. split; [exact E2|].
   apply (f_equal (fun l => nth_error l a)) in E1. rewrite !nth_upd_eq in E1 by exact Hl. congruence.
 Qed.
 
@@ -446,4 +447,74 @@ Proof.
            { unfold get in Hy'. rewrite Ha1 in Hy'. rewrite app_nil_r in Hy'. rewrite nth_upd_eq in Hy' by (rewrite Hl0; exact Hl). congruence. }
            subst y'. unfold must_reg in *. unfold ys in Hm. cbn [pushed] in Hm. rewrite Hs', Hz', (lu_pend _ _ _ Hy) in Hm. exact Hm.
       * rewrite nth_upd_neq in Hgb by exact Hne. exists xb. split; [exact Hgb|]. split; [reflexivity|split; [reflexivity|split; [left; reflexivity|auto]]].
+Qed.
+
+Lemma RInv_handle s a x e :
+  wf s -> LI s -> RInv s -> get s a = Some x -> a_cons x = CH e -> RInv (mstep s (MHandle a)).
+Proof.
+  intros W I HR Hg Hc. cbn [mstep]. rewrite Hg, Hc.
+  assert (Hl : a < length (actors s)) by (eapply nth_error_lt; exact Hg).
+  assert (Hpx : a_pend x = []).
+  { destruct W as [HA _]. apply pend_shape_idle; [eapply Forall_nth; eauto|]. intros md E; congruence. }
+  set (s0 := set_actor s a (busy x)).
+  assert (Hg0 : get s0 a = Some (busy x)) by (apply get_set_same; exact Hl).
+  pose proof (I _ _ Hg) as (L1 & _).
+  destruct (dispatch_life s0 a (busy x) e Hg0 L1) as (y & Hy & Hz & Hch & Hpd & Hst & Hu & Hlf).
+  destruct (dispatch_effect s0 a (busy x) e Hg0) as (y2 & Hdf & Ha & _ & _ & _ & Hr & _).
+  destruct (dispatch s0 a (busy x) e) as [s1 ins]. cbn [fst snd] in *.
+  assert (Hyy : y2 = y).
+  { unfold get in Hy. rewrite Ha in Hy. rewrite nth_upd_eq in Hy by (unfold s0; cbn; rewrite upd_length; exact Hl). congruence. }
+  subst y2.
+  apply (RInv_transfer s); [rewrite set_pend_reg; exact Hr|rewrite len_set_pend, Ha; unfold s0; cbn; rewrite !upd_length; reflexivity| |exact HR].
+  intros b xb Hgb. rewrite (set_pend_TA _ _ _ _ Hy) in Hgb.
+  destruct (Nat.eq_dec a b) as [<-|Hne].
+  - rewrite (get_set_same' _ _ _ _ Hy) in Hgb. inversion Hgb; subst xb. exists x. split; [exact Hg|].
+    cbn [upd_pend a_path a_parent]. rewrite (df_path _ _ Hdf), (df_parent _ _ Hdf). cbn [busy set_mb a_path a_parent].
+    split; [reflexivity|split; [reflexivity|split]].
+    + left. cbn [upd_pend a_cache]. rewrite (df_cache _ _ Hdf). reflexivity.
+    + unfold must_reg. cbn [upd_pend a_state a_zombie a_pend]. rewrite Hz, Hu, Hpx. cbn [busy set_mb a_state a_zombie lf filter uzc length In] in *.
+      intros [H|[H|[H|H]]].
+      * left. intros Hk. apply H. destruct Hst as [E|[E _]]; congruence.
+      * destruct Hlf as [E|[[p E]|[w E]]]; rewrite E in H; cbn in H; intuition discriminate.
+      * destruct Hlf as [E|[[p E]|[w E]]]; rewrite E in H; cbn in H; intuition discriminate.
+      * right; right; right. exact H.
+  - rewrite get_set_other in Hgb by exact Hne.
+    assert (E : get s1 b = get s b).
+    { unfold get. rewrite Ha. unfold s0. cbn [set_actor actors]. rewrite upd_upd. apply nth_upd_neq. exact Hne. }
+    rewrite E in Hgb. exists xb. split; [exact Hgb|]. split; [reflexivity|split; [reflexivity|split; [left; reflexivity|auto]]].
+Qed.
+
+Theorem RInv_mstep s m : wf s -> LI s -> RInv s -> RInv (mstep s m).
+Proof.
+  intros W I HR.
+  destruct (mstep_cases s m) as [Hq|[(t & i & rest & pre & s1 & Hp & Hpl & Hf & Hu & Hq & _ & E)|[(a & x & e & -> & Hg & Hc)|(t & i & rest & -> & Hp & Hy & Hq & E)]]].
+  - apply (RInv_quiet s); assumption.
+  - rewrite E. apply (RInv_plain s s1 t i rest pre); assumption.
+  - apply (RInv_handle s a x e); assumption.
+  - rewrite E. apply RInv_astep; assumption.
+Qed.
+
+Lemma RInv_init scs : RInv (init_with scs).
+Proof.
+  unfold init_with.
+  assert (Ha : forall scs s i, actors (set_exts s i scs) = actors s).
+  { clear. induction scs as [|sc r IH]; intros s i; cbn [set_exts]; [reflexivity|]. rewrite IH. apply set_pend_TX_actors. }
+  assert (Hr : forall scs s i, reg (set_exts s i scs) = reg s).
+  { clear. induction scs as [|sc r IH]; intros s i; cbn [set_exts]; [reflexivity|]. rewrite IH. apply set_pend_reg. }
+  assert (Hget : forall b, get (set_exts (init_state (length scs)) 0 scs) b = get (init_state (length scs)) b) by (intros; unfold get; rewrite Ha; reflexivity).
+  split; [|split; [|split; [|split]]].
+  - rewrite Hget. eexists. split; [reflexivity|split; reflexivity].
+  - intros a x Hg Hne. rewrite Hget in Hg. destruct a as [|[|a]]; cbn in Hg; congruence.
+  - rewrite Hr. reflexivity.
+  - intros a x Hg Hne. rewrite Hget in Hg. destruct a as [|[|a]]; cbn in Hg; congruence.
+  - intros a x y Hg Hc. rewrite Hget in Hg. destruct a as [|[|a]]; cbn in Hg; try discriminate. inversion Hg; subst. discriminate Hc.
+Qed.
+
+Theorem RInv_reachable s : reachable s -> RInv s.
+Proof.
+  revert s. apply (micro_invariant_with (fun s => wf s /\ LI s) RInv).
+  - intros scs. split; [apply wf_init|apply LI_init].
+  - intros s m [W I]. split; [apply wf_mstep; exact W|apply LI_mstep; assumption].
+  - apply RInv_init.
+  - intros s m [W I] HR. apply RInv_mstep; assumption.
 Qed.
